@@ -14,7 +14,7 @@ ID = "C09"
 RULE = ("Mode H: a world of live objects in ONE process - model A=All(B,Q) with B=Any(a,b) one shared object also under Q=AtMost(1,[c,B]) and "
         "under a second model N=Any(B,d); the same shape with generated ids; configurator pairs that are == and hash-equal but differently "
         "defined (rule R AtMost 1 vs AtMost 2: hash(-1)==hash(-2); leaf bounds (0,3) vs (1,2)); a configurator with defaulted rules - and a "
-        "menu of ~120 public API calls (evaluate / evaluate_propositions / assume with total, partial, sub-proposition-naming and "
+        "menu of ~190 public API calls (evaluate / evaluate_propositions / assume with total, partial, sub-proposition-naming and "
         "own-id-naming interpretations, reduce, negate, errors, to_json, to_b64, to_text, flatten, variables, flags, to_ge_polyhedron, solve, "
         "ge_polyhedron, default_prios, leafs, select, add, ...). EVERY call sequence of length <=2 (thorough: <=3 via state de-duplication) is "
         "replayed from scratch in a child forked from a pristine parent. invariants: (1) every call in every reachable state returns what "
@@ -124,6 +124,15 @@ def ops_menu():
         add(f"{X}.to_ge_polyhedron[F]", lambda w, X=X: w[X].to_ge_polyhedron(active=False))
         add(f"{X}.solve", lambda w, X=X: list(w[X].solve([{"a": 1}, {"c": 1, "a": -1}], solver=cfgspace.Capture("exact"))))
         add(f"{X}.to_short", lambda w, X=X: w[X].to_short())
+    add("from_json(M.to_json)", lambda w: pg.from_json(json.loads(json.dumps(w["M"].to_json()))))
+    add("from_json(G.to_json)", lambda w: pg.from_json(json.loads(json.dumps(w["G"].to_json()))))
+    add("from_b64(N.to_b64)", lambda w: pg.from_b64(w["N"].to_b64()))
+    add("from_cicJE", lambda w: pg.Imply.from_cicJE({"id": "r", "condition": {"relation": "ALL", "subConditions": [{"relation": "ANY", "components": [{"id": "a"}, {"id": "b"}]}]},
+                                                    "consequence": {"ruleType": "REQUIRES_EXCLUSIVELY", "components": [{"id": "x"}, {"id": "y"}]}}))
+    add("K3.from_json(to_json)", lambda w: cc.StingyConfigurator.from_json(json.loads(json.dumps(w["K3"].to_json()))))
+    add("variable.from_json", lambda w: puan.variable.from_json({"id": "q", "bounds": {"lower": -1, "upper": 2}}))
+    add("K1.ge_polyhedron.reduce", lambda w: (lambda P: P.reduce(*P.reducable_rows_and_columns()))(w["K1"].ge_polyhedron))
+    add("K3.ge_polyhedron.to_b64", lambda w: w["K3"].ge_polyhedron.to_b64())
     add("Not(M)", lambda w: pg.Not(w["M"]))
     add("Imply(M,N)", lambda w: pg.Imply(w["M"], w["N"]))
     for K in ("K1", "K2", "J1", "J2", "K3"):
@@ -230,6 +239,14 @@ def shards(tier):
 
 
 _PRISTINE = {}
+_PH = []
+
+
+def PRISTINE_HIDDEN():
+    """Non-cache hidden state of a process that imported the library and executed nothing (this worker itself executes nothing)."""
+    if not _PH:
+        _PH.append(tuple(e for e in hidden_state() if e[0] != "cache"))
+    return _PH[0]
 
 
 def pristine(j):
@@ -302,6 +319,14 @@ def check_path(path, acc):
     if last["changed"]:
         sig = classify_change(name, last)
         acc.violation(sig, case, {"what": f"{name.split('[')[0]} changed the object it was called on (or another object of the world)", "call": name, "changed_paths": last["diff"][:8]})
+        expandable = False
+    # (4) hidden state other than cache fill levels (mutable default arguments, module globals) never changes
+    def noncache(h):
+        return tuple(e for e in h[0] if e[0] != "cache")
+    before = recs[-2]["hidden"] if len(recs) > 1 else None
+    if before is not None and noncache(before) != noncache(last["hidden"]) or noncache(last["hidden"]) != PRISTINE_HIDDEN():
+        acc.violation(None, case, {"what": f"{name.split('[')[0]} changed process-wide hidden state (a mutable default argument or module global)", "call": name,
+                                   "history": hist, "changed": [e for e in noncache(last["hidden"]) if e not in PRISTINE_HIDDEN()][:4]})
         expandable = False
     if last["memo_changed"] and sig is None:
         # (a memo that aliases a node re-bound by a D3 transition changes with it: same defect, already reported above)
